@@ -2,7 +2,7 @@
 
 Run on every check of C06 and C07 (through `extract_tables`): the decision structure of the `match()` methods of
 testtools/matchers/{_higherorder,_basic,_datastructures,_dict,_exception}.py, of `Mismatch` / `MismatchDecorator` /
-`MismatchError.__str__` (_impl.py), of `TestCase._matchHelper / assertThat / expectThat / addDetailUniqueName` (testcase.py) and of
+`MismatchError.__str__` (_impl.py), of `Warnings.match` / `IsDeprecated` / `WarningMessage` (_warnings.py), of `TestCase._matchHelper / assertThat / expectThat / addDetailUniqueName` (testcase.py) and of
 `assert_that` (assertions.py) is re-read from the tree under test and emitted as DATA of the types of `TTV/Model/MatchSkel.lean` into
 `TTV/Generated/MatchSrc.lean`.  The interpreters there give the data its meaning over the verdicts of M-Match; `C06_src_*` / `C07_src_*`
 (Props/C06.lean, Props/C07.lean) prove `generated = reference` and `interpreter reference = hand-written model`.
@@ -818,6 +818,55 @@ def raises_skel(fn):
             'propagatesNonUser := %s, otherwiseReturnsMismatch := %s }' % (B(c), B(r), B(cb), guard, inner, B(p), B(o)))
 
 
+# ---------------------------------------------------------------- _warnings.py
+def warnings_skel(tree):
+    fn = find(tree, 'Warnings.match')
+    b = body_of(fn)
+    ps = params(fn)
+    rec = calls = got = other = False
+    before, guard = [], '.unknown'
+    if len(ps) == 1 and len(b) == 1 and isinstance(b[0], ast.With) and len(b[0].items) == 1:
+        it = b[0].items[0]
+        w = u(it.optional_vars) if it.optional_vars is not None else None
+        rec = w is not None and u(it.context_expr) == 'warnings.catch_warnings(record=True)'
+        body = list(b[0].body)
+        call = '%s()' % ps[0]
+        idx = [i for i, x in enumerate(body) if u(x) == call]
+        if rec and len(idx) == 1:
+            before = [u(x) for x in body[:idx[0]]]
+            rest = body[idx[0] + 1:]
+            calls = True
+            # layout of `polar`: `if self.warnings_matcher is not None: return self.warnings_matcher.match(w)` ; `if not w: return Mismatch(..)`
+            if len(rest) == 2 and all(isinstance(x, ast.If) and not x.orelse for x in rest):
+                guard = res_test(rest[0].test, 'self.warnings_matcher')
+                got = [u(x) for x in rest[0].body] == ['return self.warnings_matcher.match(%s)' % w]
+                other = u(rest[1].test) == 'not %s' % w and len(rest[1].body) == 1 and u(rest[1].body[0]).startswith('return Mismatch(')
+    d = body_of(find(tree, 'IsDeprecated'))
+    dps = [a.arg for a in find(tree, 'IsDeprecated').args.args]
+    one = len(dps) == 1 and [u(x) for x in d] in (
+        ['return Warnings(MatchesListwise([WarningMessage(category_type=DeprecationWarning, message=%s)]))' % dps[0]],
+        ['return Warnings(MatchesListwise([WarningMessage(DeprecationWarning, message=%s)]))' % dps[0]],
+        ['return Warnings(MatchesListwise([WarningMessage(DeprecationWarning, %s)]))' % dps[0]])
+    wm = find(tree, 'WarningMessage')
+    wb = body_of(wm)
+    wps = [a.arg for a in wm.args.args]
+    src = ' ; '.join(u(x) for x in wb)
+    alias = {u(x.targets[0]): u(x.value) for x in wb if isinstance(x, ast.Assign) and len(x.targets) == 1}
+    ident = False
+    if wps and wb and isinstance(wb[-1], ast.Return) and isinstance(wb[-1].value, ast.Call) and u(wb[-1].value.func) == 'MatchesStructure':
+        kw = {k.arg: k.value for k in wb[-1].value.keywords}
+        def inner(x):      # Annotate('…', M) -> M
+            return x.args[1] if isinstance(x, ast.Call) and u(x.func) == 'Annotate' and len(x.args) == 2 else x
+        cat = inner(kw.get('category')) if 'category' in kw else None
+        msg = inner(kw.get('message')) if 'message' in kw else None
+        cat_ok = cat is not None and alias.get(u(cat), u(cat)) == 'Is(%s)' % wps[0]
+        msg_ok = isinstance(msg, ast.Call) and u(msg.func) == 'AfterPreprocessing' and len(msg.args) == 2 and u(msg.args[0]) == 'str'
+        ident = cat_ok and msg_ok and set(kw) == {'category', 'message', 'filename', 'lineno', 'line'}
+    return ('{ recordsInCatchWarnings := %s, beforeCall := [%s], callsMatcheeInside := %s,\n      matcherGuard := %s, matcherGetsRecorded := %s, '
+            'otherwiseMismatchIfNone := %s,\n      isDeprecatedIsListwiseOfOne := %s, categoryByIdentity := %s }'
+            % (B(rec), ', '.join(S(x) for x in before), B(calls), guard, B(got), B(other), B(one), B(ident)))
+
+
 # ---------------------------------------------------------------- _impl.py
 def truth_overrides(repo):
     out = []
@@ -1008,6 +1057,7 @@ def generate(repo):
         ('dictMatchers', 'DictSkel', lambda: dict_skel(di)),
         ('matchesException', 'List ExcStep', lambda: matches_exception_all(find(ex, 'MatchesException.__init__'), find(ex, 'MatchesException.match'))),
         ('raisesM', 'RaisesSkel', lambda: raises_skel(find(ex, 'Raises.match'))),
+        ('warningsM', 'WarningsSkel', lambda: warnings_skel(P('matchers', '_warnings.py'))),
         ('mismatch', 'MismatchSrc', lambda: mismatch_src(im, truth_overrides(repo))),
         ('mismatchErrorStr', 'ErrStrSrc', lambda: err_str_src(find(im, 'MismatchError.__str__'))),
         ('assertFamily', 'AssertSrc', lambda: assert_src(tc, asr)),
